@@ -103,7 +103,7 @@ impl<'a> Sweep<'a> {
     pub fn one(&self, f: &F, s: &str) {
         for entry in ENTRIES {
             self.run.eval(1);
-            match crate::watch::case(s, || case(f, entry, s)) {
+            match crate::watch::tagged(f.name, s, || case(f, entry, s)) {
                 Ok(o) => {
                     let mut g = self.outcomes.lock().unwrap();
                     if g.len() < 400 && !g.contains(&o) {
